@@ -57,6 +57,23 @@ fn selfcheck(runs: u64) -> i32 {
     }
     let seed = coord::seed_from_env();
     let mut bad = 0;
+    {
+        // lexer spans: every token's span must re-lex to exactly that token
+        let sample = "(let* ((p \"a\\\"b;c\\n\") (t #\\x1e)) ; comment (\n  (lipe-scan \"/dev/é\" 12 #o17 #t 'x %lf3:print:2))";
+        match sexp::lex_spans(sample) {
+            Ok(spans) => {
+                let ok = spans.iter().all(|(t, a, b)| matches!(sexp::lex(&sample[*a..*b]), Ok(v) if v.len() == 1 && v[0] == *t));
+                println!("selfcheck: lexer spans {} ({} tokens)", if ok { "ok" } else { "FAIL" }, spans.len());
+                if !ok {
+                    bad += 1;
+                }
+            }
+            Err(e) => {
+                println!("selfcheck: lexer FAIL {e}");
+                bad += 1;
+            }
+        }
+    }
     println!("selfcheck: stub runtime and oracle self-tests (hand-written programs)");
     for (name, ok, detail) in c16::selftests() {
         println!("  {} {name}: {detail}", if ok { "ok  " } else { "FAIL" });
